@@ -749,7 +749,9 @@ func (self *ReplicationClient) recvFiles() error {
 
 		if self.aofLock.CommandType == protocol.COMMAND_INIT && self.aofLock.AofIndex == 0xffffffff && self.aofLock.AofOffset == 0xffffffff && self.aofLock.CommandTime == 0xffffffffffffffff {
 			if aofFile != nil {
+				self.aof.aofGlock.Lock()
 				err = aofFile.Flush()
+				self.aof.aofGlock.Unlock()
 				if err != nil {
 					self.manager.slock.logger.Errorf("Replication client flush aof file %s error %v", aofFile.filename, err)
 				}
@@ -769,7 +771,9 @@ func (self *ReplicationClient) recvFiles() error {
 		currentAofIndex := self.aofLock.AofIndex
 		if currentAofIndex != aofIndex || aofFile == nil {
 			if aofFile != nil {
+				self.aof.aofGlock.Lock()
 				err = aofFile.Flush()
+				self.aof.aofGlock.Unlock()
 				if err != nil {
 					self.manager.slock.logger.Errorf("Replication client flush aof file %s error %v", aofFile.filename, err)
 				}
@@ -805,21 +809,17 @@ func (self *ReplicationClient) recvFiles() error {
 			}
 			return err
 		}
+		self.aof.aofGlock.Lock()
 		err = aofFile.AppendLock(self.aofLock)
+		if err == nil && self.aofLock.AofFlag&AOF_FLAG_CONTAINS_DATA != 0 {
+			err = aofFile.WriteLockData(self.aofLock)
+		}
+		self.aof.aofGlock.Unlock()
 		if err != nil {
 			if aofFile != nil && aofFile != self.aof.aofFile {
 				_ = aofFile.Close()
 			}
 			return err
-		}
-		if self.aofLock.AofFlag&AOF_FLAG_CONTAINS_DATA != 0 {
-			err = aofFile.WriteLockData(self.aofLock)
-			if err != nil {
-				if aofFile != nil && aofFile != self.aof.aofFile {
-					_ = aofFile.Close()
-				}
-				return err
-			}
 		}
 		self.state.loadCount++
 
